@@ -36,6 +36,12 @@ C18TXT = ("Nine busy scenarios (request awaiting ACK / separate response, block-
           "drained over EXCHANGE_LIFETIME. Shutdown returns within 3 s; every pending future/observation (and requests re-issued from "
           "failure callbacks inside the shutdown window) ends with an aiocoap.error.Error; handlers see CancelledError; nothing is sent "
           "and nothing raises in the loop afterwards; a later request fails with LibraryShutdown; the bystander completes as usual.")
+C20TXT = ("A real StandaloneResourceDirectory behind Context.render_to_pipe on the virtual loop: all sequences to depth 3-4 (quick) / 5 "
+          "(thorough) over 25 operations (valid registrations over three keys, six invalid registrations of a possibly live key, POST/PUT "
+          "updates valid and invalid, DELETE, unknown location, clock steps to 0.5 s before/after the earliest expiry), dedup on model + "
+          "directory tables + timers. After every step endpoint lookup, resource lookup and three filtered lookups are compared with a "
+          "model of live registrations; location stability/uniqueness and table agreement are checked; every request answered 4.xx must "
+          "leave tables, parameters, links, lookups and the timer queue exactly as they were.")
 E2 = "stateless deviation-bounded schedule exploration (all runs with <= K departures from the default environment answer) of the real stack under a virtual event loop, monitored against a reference model"
 E3 = "explicit-state breadth-first search over operation histories with state deduplication, every transition executed on the real code and compared with a reference model"
 E1 = "bounded-exhaustive enumeration of a closed input space on the real code against an independent reference model"
@@ -124,6 +130,7 @@ CHECKS.update({
             "Trusted: CPython audit events for file-system access, the harness. Destructive operations outside the scratch directory are "
             "refused by a fuse in the harness (recorded as touches) so that a real escape cannot damage the machine.",
             "DESIGN.md 6/C19"),
+    "C20": ("model_checking", E3, C20TXT, TB + "Grace period 15 s, default lifetime 90000 s from the documentation.", "DESIGN.md 6/C20"),
     "C18": ("model_checking", E2 + " (the deviation is shutdown at every step)", C18TXT,
             TB + "K=1 (quick, +K=2 on three scenarios), K=2 (thorough).", "DESIGN.md 6/C18"),
     "C14": ("model_checking", E2,
